@@ -47,7 +47,10 @@ def install_normalize_path_model(eng):
         path = args[0]
         fd = args[1] if len(args) > 1 else kwargs.get("for_display", FALSE)
         cfg = eng_.config
-        f = normpath_fn(cfg)
+        pn = ""
+        if isinstance(self_v, R) and "name" in st.obj(self_v).meta:
+            pn = "@" + st.obj(self_v).meta["name"]
+        f = z3.Function("normalize_path<%s>%s" % (cfg["name"], pn), P.StrS, P.BoolS, P.StrS)
         out = []
         for g, b in alts(path):
             if not P.is_str(b):
@@ -121,4 +124,9 @@ def fx_provider(eng, st, pname):
 
 
 def install(eng):
+    from . import world
     eng.fixtures["Prov"] = fx_provider
+    eng.fixtures["World"] = world.fx_world
+
+
+CONFIG_SETS["sides"] = [{"name": "changed=0", "changed": 0, "synced": 1}, {"name": "changed=1", "changed": 1, "synced": 0}]
